@@ -673,6 +673,11 @@ class Interp:
     def ex_For(self, st):
         from . import loops
         loops.for_loop(self, st)
+        # optional merge point right after a loop (World.after_loop): the paths through the loop are joined at an invariant
+        fr = self.frames[-1]
+        mc = self.w.after_loop.get((fr.qual, fr.srcinfo.loop_ord.get(id(st))))
+        if mc is not None:
+            loops.merge_point(self, (fr.qual, fr.srcinfo.loop_ord[id(st)], "after"), mc)
 
     def ex_While(self, st):
         from . import loops
